@@ -168,6 +168,38 @@ def levelOps (toks : List Tok) : Cache → List (Str × Str) → Except Err Cach
     | .ok c' => levelOps toks c' r
     | .error e => .error e
 
+/-! ### level declarations at run time (new levels, with or without a colour) -/
+
+/-- `Logger.level(name, no=…, color=…, icon=…)`; `color = none`: argument omitted -/
+structure Decl where
+  name : Str
+  color : Option Str
+
+/-- `core.levels` (only the colour markup matters here) and the cache of a colourising static handler -/
+structure LCore where
+  colors : List (Str × Str) := []
+  cache : Cache := {}
+
+/-- one declaration.  `old_color` is the level's colour, `""` for a level that does not exist yet; an omitted
+colour keeps it.  `guarded = false` is the code (every handler's `update_format(name)` is called);
+`guarded = true` is the shape "update only when the colour changed", kept for the refuting witness. -/
+def declare (guarded : Bool) (toks : List Tok) (c : LCore) (d : Decl) : Except Err LCore :=
+  let old := (find? d.name c.colors).getD []
+  let color := d.color.getD old
+  match ansify color with
+  | .error e => .error e
+  | .ok a =>
+    .ok { colors := assoc d.name color c.colors,
+          cache := { ansi := assoc d.name a c.cache.ansi,
+                     pre := if guarded && color == old then c.cache.pre
+                            else assoc d.name (colorize toks (some a)) c.cache.pre } }
+
+def declareAll (guarded : Bool) (toks : List Tok) : LCore → List Decl → Except Err LCore
+  | c, [] => .ok c
+  | c, d :: r => match declare guarded toks c d with
+    | .ok c' => declareAll guarded toks c' r
+    | .error e => .error e
+
 /-! ### the memoised cache of a colourising handler with a dynamic (callable) format -/
 
 /-- `core.levels_ansi_codes` and the handler's `lru_cache` over `prepare_colored_format(format_, ansi_level)`:
